@@ -581,6 +581,18 @@ impl Walrus {
                                         );
                                     }
                                 }
+                            } else if let Some(per_block) = topic_block_entry_counts.get(topic) {
+                                // The tail block itself was not recovered (nothing had been
+                                // written into it): as the read paths do, count the blocks handed
+                                // out before it as consumed
+                                let before = info
+                                    .chain
+                                    .iter()
+                                    .position(|b| b.id > tail_block_id)
+                                    .unwrap_or(info.chain.len());
+                                consumed_entries = consumed_entries.saturating_add(
+                                    per_block.iter().take(before).copied().sum::<u64>(),
+                                );
                             }
                         } else {
                             let block_idx = (pos.cur_block_idx as usize).min(info.chain.len());
